@@ -60,6 +60,42 @@ class InterruptHook(object):
         return model.run_op(name, args, impl)
 
 
+class SignalHook(object):
+    """deliver SIGTERM / SIGHUP (signum) instead of the k-th system call or right after it has returned: if the command
+    installed a Python handler for it (recorded by commands._VirtualSignals) the handler runs at that point - whatever
+    it raises propagates from there, and if it returns the run goes on; SIG_IGN: the run goes on; otherwise the
+    default action kills the process (as CrashHook)"""
+
+    def __init__(self, k, signum, after):
+        self.k, self.signum, self.after = k, signum, after
+        self.fired = False
+        self.killed = False
+        self.handled = None
+
+    def __call__(self, model, name, args, impl):
+        import signal
+        if self.killed:
+            raise Crash()
+        if not self.fired and model.nops == self.k:
+            self.fired = True
+            res = None
+            if self.after:
+                res = model.run_op(name, args, impl)
+            h = commands.SIGNAL_HANDLERS.get(self.signum, signal.SIG_DFL)
+            if h == signal.SIG_IGN:
+                self.handled = 'ignored'
+            elif callable(h):
+                self.handled = 'handler'
+                h(self.signum, None)
+            else:
+                self.killed = True
+                self.handled = 'default'
+                raise Crash()
+            if self.after:
+                return res
+        return model.run_op(name, args, impl)
+
+
 class FaultHook(object):
     """fail the k-th system call with errno e (optionally a second one, optionally
     persistent: every later call of the same kind under the same directory fails too)"""
